@@ -26,7 +26,8 @@
  * Fault injection: vp_evb_fail_enabled=1 makes every later allocation fail or
  * succeed by solver choice (one vp_bool() per call: symbolic fault schedule,
  * replayable).  vp_evb_fail_budget bounds the number of injected failures
- * (<0 = unbounded).  Counters: vp_evb_live (objects not yet freed; leak check
+ * (<0 = unbounded).  Alternatively vp_evb_fail_at = n fails exactly the n-th allocation from now on
+ * (concrete schedule, vp_evb_fail_seen counts).  Counters: vp_evb_live (objects not yet freed; leak check
  * is "== 0 after everything was released"), vp_evb_allocs, vp_evb_failed.
  *
  * Harnesses that include event.c: #define VP_HAVE_EVENT_C first and install
@@ -45,10 +46,19 @@
 
 int vp_evb_fail_enabled;
 int vp_evb_fail_budget = -1;
+/* concrete fault schedule: the vp_evb_fail_at-th allocation from now on fails (0 = none).  Prefer this over the
+ * symbolic schedule whenever the harness can case-split on the index: a pointer that is "NULL or object" after a
+ * merge makes every later field read through it symbolic (C14 single add: 10 GB), a concretely NULL one does not. */
+int vp_evb_fail_at, vp_evb_fail_seen;
 int vp_evb_allocs, vp_evb_frees, vp_evb_failed, vp_evb_live;
 
 static int vp_evb_should_fail(void)
 {
+	if (vp_evb_fail_at) {
+		vp_evb_fail_seen++;
+		if (vp_evb_fail_seen == vp_evb_fail_at) { vp_evb_failed++; return 1; }
+		return 0;
+	}
 	if (vp_evb_fail_enabled && vp_evb_fail_budget != 0 && vp_bool()) {
 		if (vp_evb_fail_budget > 0) vp_evb_fail_budget--;
 		vp_evb_failed++;
